@@ -39,6 +39,8 @@ def cases(tier, seed):
     for (k, mult) in ((3, 6), (4, 6), (3, 7)):
         for s0 in range(0, S, 4):
             yield {"kind": "medium", "k": k, "n": k * mult + (1 if mult == 7 else 0) * 0, "seeds": list(range(s0, s0 + 4))}
+    # one large batch for balanced prediction (an implementation that works block-wise is only wrong beyond its block size)
+    yield {"kind": "bigbatch", "k": 3, "m": 1201 if tier == "quick" else 2050, "strategy": "distance"}
     # every initial label vector (kmeans0=False) on a few data sets
     datasets = [[[0.0], [1.0], [2.0], [3.0], [4.0]], [[0.0], [0.0], [1.0], [3.0], [3.0]],
                 [[0.0, 0.0], [1.0, 0.0], [0.0, 1.0], [2.0, 2.0], [2.0, 1.0]],
@@ -199,6 +201,19 @@ def run_case(case):
 
     X = numpy.array(case.get("pts", [[0.0]]), dtype=numpy.float64)
     n = X.shape[0]
+    if case["kind"] == "bigbatch":
+        k, mrows = case["k"], case["m"]
+        rs_ = numpy.random.RandomState(5)
+        Xtr = rs_.randn(30, 2)
+        numpy.random.seed(0)
+        mb = ConstraintKMeans(n_clusters=k, strategy=case["strategy"], random_state=0, n_init=2, max_iter=20, balanced_predictions=True).fit(Xtr)
+        B = numpy.vstack([rs_.randn(mrows - 200, 2), rs_.randn(200, 2) * 0.2 + 2.0])    # skewed batch
+        numpy.random.seed(0)
+        bl = numpy.asarray(mb.predict(B))
+        bc = numpy.bincount(bl, minlength=k).tolist()
+        if not _sizes_ok(bc, mrows, k):
+            bad("balanced predict size outside floor/ceil", "strategy=%s,large batch" % case["strategy"], "sizes %r for a batch of %d rows, k=%d" % (bc, mrows, k))
+        return {"viol": viol, "nontrivial": True, "states": 1, "transitions": mrows, "outcome": tuple(bc)}
     if case["kind"] == "medium":
         k, n = case["k"], case["n"]
         for sd in case["seeds"]:
